@@ -153,15 +153,17 @@ harmonic {
   forceConstant 2.0
 }
 """
+# thermodynamic integration data of a restraint (colvarbias_ti: histogram + system_forces grids after the configuration)
+CONFIG_TI = _EXT_CV + _HARM.replace("  forceConstant 2.0\n", "  forceConstant 2.0\n  writeTIPMF on\n")
 NATOMS = {"twin": 4}
 POSITIONS = {"twin": ["pos 1 0 0 1.25", "pos 2 0 0 0.5", "pos 3 0 0 2.0"]}
 CONFIG_SABF = _EXT_CV + _ABF % "  shared on\n  sharedFreq 1000\n  CZARestimator off\n"
 # the grid configuration with other boundaries (8 bins instead of 4): only a target of the cross-configuration loads
 CONFIG_GRID8 = CONFIG_GRID.replace("upperBoundary 4.0", "upperBoundary 8.0")
 CONFIGS = {"grid8": CONFIG_GRID8, "base": CONFIG, "grid": CONFIG_GRID, "extra": CONFIG_EXTRA, "eabf": CONFIG_EABF, "eabf_nocz": CONFIG_EABF_NOCZ,
-           "eabf_harm": CONFIG_EABF_HARM, "hist": CONFIG_HIST, "sabf": CONFIG_SABF, "twin": CONFIG_TWIN}
+           "eabf_harm": CONFIG_EABF_HARM, "hist": CONFIG_HIST, "sabf": CONFIG_SABF, "twin": CONFIG_TWIN, "ti": CONFIG_TI}
 PRELUDE = {"extra": ["temperature 300"], "eabf": ["temperature 300"], "eabf_nocz": ["temperature 300"], "eabf_harm": ["temperature 300"],
-           "sabf": ["temperature 300", "replicas 0 2 -1 -1"]}
+           "sabf": ["temperature 300", "replicas 0 2 -1 -1"], "ti": ["temperature 300"]}
 NBINS = 4   # lowerBoundary 0, upperBoundary 4, width 1
 
 
@@ -861,6 +863,8 @@ def tx_line(text, config="base"):
         cfg = "cv:%d b:%d.%d.%d.0.%s" % (wid("d"), wid("abf"), wid("abf"), wid("a"), lay)
         if config == "eabf_harm":
             cfg += ",%d.%d.%d.0" % (wid("restraint"), wid("harmonic"), wid("h"))
+    elif config == "ti":
+        cfg = "cv:%d b:%d.%d.%d.0.k%d+w%d+k%d+w%d" % (wid("d"), wid("restraint"), wid("harmonic"), wid("h"), wid("histogram"), NBINS, wid("system_forces"), NBINS)
     elif config == "twin":
         cfg = "cv:%d,%d,%d b:%d.%d.%d.0,%d.%d.%d.0,%d.%d.%d.1,%d.%d.%d.1" % (
             wid("d"), wid("colvar2"), wid("f"),
@@ -901,6 +905,8 @@ def tb_line(data, config="base"):
             bs += ",%s.%s.0.1" % (hx("restraint"), hx("harmonic"))
     elif config == "hist":
         bs = "%s.%s.0.1.k%s+o%d" % (hx("histogram"), hx("histogram"), hx("grid"), NBINS)
+    elif config == "ti":
+        bs = "%s.%s.0.1.k%s+o%d+k%s+o%d" % (hx("restraint"), hx("harmonic"), hx("histogram"), NBINS, hx("system_forces"), NBINS)
     elif config == "sabf":
         # a shared ABF announces `sharedData on` in its configuration string: local and last-shared grids are mandatory
         lay = "+".join("k%s+o%d" % (hx(k), NBINS) for k in ("samples", "gradient", "local_samples", "local_gradient", "last_samples", "last_gradient"))
@@ -1150,7 +1156,7 @@ def run_damage_grid(run, vsim, d, quick, model):
     run_sessions_with_failed_loads(run, vsim, d, quick)
     run_large_steps_and_cross_loads(run, vsim, d, quick)
     run_corrupt_counts(run, vsim, d, quick)
-    for cfgname in ("grid", "extra", "eabf", "eabf_nocz", "eabf_harm", "hist", "sabf", "twin"):
+    for cfgname in ("grid", "extra", "eabf", "eabf_nocz", "eabf_harm", "hist", "sabf", "twin", "ti"):
         run_damage_config(run, vsim, d, quick, model, cfgname)
 
 
